@@ -17,11 +17,11 @@ import (
 func id() string { return os.Getenv("VERIF_ID") }
 
 var (
-	universe  = []string{"f1.txt", "f2.txt", "sub/f3.txt", "extra.txt", "sub/extra.txt", "g1.c", "note.md", ".store/s.txt"}
+	universe  = []string{"f1.txt", "f2.txt", "sub/f3.txt", "extra.txt", "sub/extra.txt", "g1.c", "g2.c", "note.md", ".store/s.txt"}
 	literals  = []string{"f1.txt", "f2.txt", "sub/f3.txt"}
 	globPats  = []string{"*.txt", "sub/*.txt", "**/*.txt", "*.c", "*/*.txt"}
 	contents  = []string{"0", "1", "2"}
-	taskNames = []string{"A", "B", "C"}
+	taskNames = []string{"A", "B", "a"} // "A" and "a" are different tasks
 )
 
 // dirPool: names for the directory that holds the spokfile; characters that mean something to a glob
@@ -113,6 +113,7 @@ func genCacheCase(t *rapid.T) CacheCase {
 		delete(c.Init, "extra.txt")
 	}
 	c.Dir = genDir(t)
+	c.Junk = rapid.IntRange(0, 5).Draw(t, "junk_in_cache_dir") == 0
 	names := taskNames[:n]
 	nsteps := rapid.IntRange(2, 14).Draw(t, "nsteps")
 	if ev.Thorough() {
@@ -441,6 +442,16 @@ func templateCases() []CacheCase {
 					at(run([]string{"A", "B"}, false, nil), ab[0]), {Op: "write", File: "a.txt", Content: "1"}, at(run([]string{"A", "B"}, false, nil), ab[1]),
 					{Op: "write", File: "a.txt", Content: "0"}, at(fin, ab[0]), at(fin, ab[1])}})
 			}
+		}
+	}
+	// the only file a glob matches is replaced by another name with the same content (and back)
+	one := []TaskSpec{{Name: "A", Globs: []string{"*.c"}, NCmds: 1}, {Name: "B", Files: []string{"b.txt"}, Globs: []string{"*.c"}, NCmds: 1}}
+	for _, fin := range final {
+		for _, junk := range []bool{false, true} {
+			out = append(out, CacheCase{Tasks: one, Junk: junk, Init: map[string]string{"b.txt": "0", "g1.c": "0"}, Steps: []Step{
+				run([]string{"A", "B"}, false, nil), del("g1.c"), wr("g2.c", "0"), fin, fin, del("g2.c"), wr("g1.c", "0"), fin}})
+			out = append(out, CacheCase{Tasks: one, Junk: junk, Init: map[string]string{"b.txt": "0", "g1.c": "0"}, Steps: []Step{
+				run([]string{"A", "B"}, false, nil), wr("g1.c", "1"), fin, wr("g1.c", "0"), fin, fin}})
 		}
 	}
 	// a dependency that is a symbolic link: the target is edited, not the link
